@@ -93,7 +93,7 @@ def C10(ctx):
     mc(ctx, "MC_UriCanon", law_cfg("BrokenQueryLaws", "query_lists", 2), expect_violation="BrokenQueryLaws",
        label="neg-rendered-sort")
     fn_campaign(ctx,
-                [("query_bytes", 0), ("query_escapes", 0), ("query_trunc", 0), ("query_many", 0), ("query_ampamp", 2),
+                [("query_bytes", 0), ("query_escapes", 0), ("query_trunc", 0), ("query_wide", 0), ("query_many", 0), ("query_ampamp", 2),
                  ("query_lists", 2 if q else 3)],
                 [("query", 4000 if q else 200000)])
     fresh_process_determinism(ctx, "query_lists", 2, 4 if q else 16, "fresh-processes")
@@ -364,7 +364,7 @@ def C02(ctx):
 def C03(ctx):
     q = ctx.quick
     pipeline_mc(ctx, q)
-    req_campaign(ctx, [("scope", 0), ("midnight", 0), ("akid", 0), ("dup", 0)])
+    req_campaign(ctx, [("scope", 0), ("midnight", 0), ("akid", 0), ("dup", 0), ("leak_scope", 0)])
     core_campaign(ctx)
     return dict(
         rule="E: 31 credential scopes (arities 0..7 parts, region/service prefix, suffix, case variant, empty, extra char, "
@@ -382,7 +382,7 @@ def C04(ctx):
     # triples is the inclusive window on nanoseconds (Apalache / SMT)
     apalache(ctx, "CivilLemma", "Lemmas")
     fn_campaign(ctx, [("ts_field", 0), ("ts_seps", 0)], [])     # the textual forms themselves (hour 24, offsets, ...)
-    req_campaign(ctx, [("window", 0 if q else 1), ("window_frac", 0), ("expires", 0), ("midnight", 0), ("dup", 0)])
+    req_campaign(ctx, [("window", 0 if q else 1), ("window_frac", 0), ("expires", 0), ("midnight", 0), ("dup", 0), ("leak_window", 0)])
     core_campaign(ctx)
     return dict(
         rule="E: request instants at every whole-second offset %s from the server time plus 1 ns and 0.5 s either side of "
@@ -465,7 +465,7 @@ def C17(ctx):
     pipeline_mc(ctx, q)
     fn_campaign(ctx, [("leakfn", 0)], [])
     req_campaign(ctx, [("leak_defects", 1 if q else 2), ("leak_scripts", 0), ("leak_sigmut", 0), ("leak_long", 0), ("leak_cfg", 0),
-                       ("leak_midnight", 0)])
+                       ("leak_midnight", 0), ("leak_window", 0), ("leak_scope", 0)])
     return dict(
         rule="Every validation in the leak families runs with a capturing `log` logger at Trace level; the harness searches "
              "each log record, the Display and Debug text of the returned error, and the Debug text of the canonical "
@@ -560,7 +560,7 @@ def C08(ctx):
                       ("ts_affix", 0), ("path_trunc", 0), ("query_trunc", 0), ("helper_bytes", 0), ("helper_trim", 3 if q else 5)],
                 [("ts", 3000 if q else 100000), ("key", 2000 if q else 50000), ("path", 3000 if q else 100000),
                  ("query", 3000 if q else 100000), ("hval", 2000 if q else 50000)])
-    req_campaign(ctx, [("charsets", 0), ("degenerate", 0), ("defects", 1 if q else 2), ("leak_long", 0), ("cfgmix", 0, 13 if q else 1)])
+    req_campaign(ctx, [("charsets", 0), ("degenerate", 0), ("defects", 1 if q else 2), ("leak_long", 0), ("leak_window", 0), ("leak_scope", 0), ("cfgmix", 0, 13 if q else 1)])
     cases, n = hgen(ctx, "reqfuzz", 3000 if q else 200000)
     tr = hrun(ctx, cases, "R:reqfuzz")
     validate_req(ctx, tr, "R:reqfuzz", cases)
